@@ -567,7 +567,7 @@ func zcScenarioC18(h *Hist, mons []Monitor) {
 		submit(byName["zcn.add-authorizer"].Build(h, r))
 	}
 	if r.Chance(0.5) {
-		fields := map[string]string{"percent_authorizers": []string{"0.5", "1", "0.34", "0.6", "0.7"}[r.Intn(5)]}
+		fields := map[string]string{"percent_authorizers": []string{"0.5", "1", "0.34", "0.6", "0.7"}[r.Intn(5)], "min_stake": "1"}
 		submit(&Call{Name: "zcn.update-settings", Meta: map[string]interface{}{"gov": "zcn", "settings": fields, "all_valid_syntax": true},
 			Spec: world.TxnSpec{From: h.W.Owner, To: zcnsc.ADDRESS, Fee: Coin(h.fee(r) % 1000), Type: transaction.TxnTypeSmartContract, Func: "update-global-config", Input: map[string]interface{}{"fields": fields}}})
 	}
